@@ -374,7 +374,10 @@ typedef struct spifconf_var_t {
  * @ingroup DOXGRP_OPT
  */
 #define CHECK_BAD()  do { \
-                       SPIFOPT_BADOPTS_SET(SPIFOPT_BADOPTS_GET() + 1); \
+                       if ((spif_uint8_t) (SPIFOPT_BADOPTS_GET() + 1)) { \
+                         /* The counter is 8 bits wide:  stop at its maximum rather than wrap to 0. */ \
+                         SPIFOPT_BADOPTS_SET(SPIFOPT_BADOPTS_GET() + 1); \
+                       } \
                        if (SPIFOPT_BADOPTS_GET() > SPIFOPT_ALLOWBAD_GET()) { \
                          libast_print_error("Error threshold exceeded, giving up.\n"); \
                          SPIFOPT_HELPHANDLER(); \
